@@ -7,6 +7,7 @@ package eth2wrap
 import (
 	"context"
 	"fmt"
+	"io"
 	"net"
 	"net/http"
 	"strings"
@@ -66,6 +67,8 @@ type c19node struct {
 	t0     time.Time
 	called bool
 	tCall  time.Duration
+	// (proxy calls) the node was handed a request that is not the caller's
+	bodyBad bool
 }
 
 func (n *c19node) Address() string { return fmt.Sprintf("node%d", n.id) }
@@ -98,6 +101,24 @@ func (n *c19node) SubmitAttestations(ctx context.Context, _ *eth2api.SubmitAttes
 	return n.do(ctx)
 }
 
+const c19body = `{"request":"body that every consulted node must receive unaltered"}`
+
+// Proxy: the node reads the request it is handed; a node that receives anything but the caller's request refuses it.
+func (n *c19node) Proxy(ctx context.Context, req *http.Request) (*http.Response, error) {
+	var got []byte
+	if req.Body != nil {
+		got, _ = io.ReadAll(req.Body)
+	}
+	n.bodyBad = string(got) != c19body || req.Method != http.MethodPost
+	if err := n.do(ctx); err != nil {
+		return nil, err
+	}
+	if n.bodyBad {
+		return nil, errors.New("bad request: the request body is not the caller's")
+	}
+	return &http.Response{StatusCode: http.StatusOK, Header: http.Header{"X-Node": []string{fmt.Sprint(n.id)}}, Body: http.NoBody}, nil
+}
+
 type c19case struct {
 	Kind     string   `json:"kind"` // "provide", "submit"
 	Prim     []string `json:"primaries"`
@@ -127,13 +148,14 @@ func (c c19case) String() string {
 }
 
 type c19obs struct {
-	returned bool
-	tRet     time.Duration
-	err      error
-	value    int
-	calledP  []bool
-	calledF  []bool
-	tCallF   []time.Duration
+	returned   bool
+	tRet       time.Duration
+	err        error
+	value      int
+	calledP    []bool
+	calledF    []bool
+	alteredReq []int // nodes that were handed an altered request
+	tCallF     []time.Duration
 }
 
 const c19horizon = 1000 * c19q
@@ -189,10 +211,10 @@ func c19run(t *testing.T, cs c19case) (obs c19obs) {
 			time.Sleep(3 * c19q)
 			t0 = time.Now()
 			for i, n := range pn {
-				n.out, n.lat, n.t0, n.called, n.tCall = c19find(cs.All, cs.Prim[i]), time.Duration(cs.PrimLat[i])*c19q, t0, false, 0
+				n.out, n.lat, n.t0, n.called, n.tCall, n.bodyBad = c19find(cs.All, cs.Prim[i]), time.Duration(cs.PrimLat[i])*c19q, t0, false, 0, false
 			}
 			for i, n := range fn {
-				n.out, n.lat, n.t0, n.called, n.tCall = c19find(cs.All, cs.Fall[i]), time.Duration(cs.FallLat[i])*c19q, t0, false, 0
+				n.out, n.lat, n.t0, n.called, n.tCall, n.bodyBad = c19find(cs.All, cs.Fall[i]), time.Duration(cs.FallLat[i])*c19q, t0, false, 0, false
 			}
 		}
 		ctx, cancel := context.WithCancel(context.Background())
@@ -222,6 +244,20 @@ func c19run(t *testing.T, cs c19case) (obs c19obs) {
 				}
 			case "submit":
 				obs.err = cl.SubmitAttestations(ctx, &eth2api.SubmitAttestationsOpts{})
+			case "proxy":
+				req, rerr := http.NewRequestWithContext(ctx, http.MethodPost, "http://beacon.invalid/eth/v1/anything", strings.NewReader(c19body))
+				if rerr != nil {
+					obs.err = rerr
+					break
+				}
+				res, err := cl.Proxy(ctx, req)
+				obs.err = err
+				if err == nil && res != nil {
+					obs.value = -1
+					fmt.Sscan(res.Header.Get("X-Node"), &obs.value)
+				} else if err == nil {
+					obs.value = -1
+				}
 			}
 			obs.returned, obs.tRet = true, time.Since(t0)
 		}()
@@ -235,10 +271,16 @@ func c19run(t *testing.T, cs c19case) (obs c19obs) {
 		synctest.Wait()
 		for _, n := range pn {
 			obs.calledP = append(obs.calledP, n.called)
+			if n.called && n.bodyBad && cs.Kind == "proxy" {
+				obs.alteredReq = append(obs.alteredReq, n.id)
+			}
 		}
 		for _, n := range fn {
 			obs.calledF = append(obs.calledF, n.called)
 			obs.tCallF = append(obs.tCallF, n.tCall)
+			if n.called && n.bodyBad && cs.Kind == "proxy" {
+				obs.alteredReq = append(obs.alteredReq, n.id)
+			}
 		}
 		if !obs.returned {
 			<-done
@@ -252,6 +294,9 @@ func c19check(cs c19case, o c19obs) (sigs, descs []string) {
 	bad := func(sig, f string, a ...any) {
 		sigs = append(sigs, sig)
 		descs = append(descs, fmt.Sprintf(f, a...))
+	}
+	if len(o.alteredReq) > 0 {
+		bad("kind=node-consulted-with-altered-request", "nodes %v were handed a request whose body is not the caller's", o.alteredReq)
 	}
 	cancelAt := c19horizon
 	if cs.CancelAt > 0 {
@@ -386,6 +431,9 @@ func c19check(cs c19case, o c19obs) (sigs, descs []string) {
 	return
 }
 
+// VerifC19PartC is set by the external test package (zz_verif_c19_net_test.go).
+var VerifC19PartC func(t *testing.T, r *enumx.Run)
+
 func c19perms(n int) [][]int {
 	var out [][]int
 	var rec func(cur []int, used int)
@@ -480,7 +528,7 @@ func TestVerifC19(t *testing.T) {
 						for _, pl := range c19perms(np) {
 							fperms := c19perms(nf)
 							for _, fl := range fperms {
-								for _, kind := range []string{"provide", "submit"} {
+								for _, kind := range []string{"provide", "submit", "proxy"} {
 									for cancel := 0; cancel <= np+nf+1; cancel++ {
 										cs := c19case{Kind: kind, Prim: pn, PrimLat: pl, Fall: fn, FallLat: fl, CancelAt: cancel, All: allForms}
 										judge(cs)
@@ -513,6 +561,10 @@ func TestVerifC19(t *testing.T) {
 	// earlier call (thorough: also two) with every outcome vector over {ok, generic, syncing, hang}, once and three times in a
 	// row (so that the selector has a clear favourite), followed by every judged script over the six outcome classes, every
 	// latency order, no cancel / cancel before the first answer. The oracle is the same statement evaluated on the judged call.
+	// part C (real network, one shard): see zz_verif_c19_net_test.go
+	if r.Mine() && VerifC19PartC != nil {
+		VerifC19PartC(t, r)
+	}
 	preOuts := []string{"ok", "generic", "syncing", "hang"}
 	outs := c19outcomes(false)
 	type topo struct{ p, f int }
